@@ -23,6 +23,20 @@ CLAIMS = {
              "compiler; machine integers are treated as mathematical outside exo_floor_div; exo_floor_div's "
              "semantics is proved under C08.",
         technique=_T + "; bounded translation validation of emitted C text via a small C expression evaluator"),
+    "C03": dict(
+        text="CheckBounds is run with a recording solver on a family of procedures (one per statement kind and "
+             "window form, all sizes/offsets/indices symbolic) and z3 proves that validity of the recorded questions "
+             "implies the property's conditions: every read, write and reduce - also through window aliases and "
+             "callee effects - lies in the source buffer, sizes are positive, trip counts non-negative, call shapes "
+             "equal and callee assertions hold; any negative answer makes definition fail. The div/mod lowering is "
+             "proved to characterise floor division uniquely; typecheck is proved to admit only positive literal "
+             "divisors and quasi-affine products; Check_Aliasing runs on roots.",
+        design_ref="3/C03",
+        note="Shapes bounded (block length <= 3, loop depth <= 2, window chain <= 2, rank <= 3); Check_Aliasing by "
+             "bounded enumeration (labelled bounded). Assumes PySMT validity, the effect algebra outside those "
+             "shapes, pyparser. Known finding F8d: an access outside a window alias's own extent but inside the "
+             "source buffer is accepted (a repair breaks an existing test).",
+        technique=_T + "; formula-construction contracts (recorded solver questions imply the property's condition, quantifier elimination per conclusion)"),
     "C05": dict(
         text="Thin: the linear-integer lowering inside UEq.problem.solve is proved (lower_e returns the coefficient "
              "vector of its argument by structural induction, lower_p is a sound lowering of Eq/Conj/Disj/Cases, the "
@@ -107,6 +121,17 @@ CLAIMS = {
              "expressions of equal value, Check_ExprBound (slow path of arg_range_analysis) and the enumerated "
              "constructor shapes of expressions; the stdlib mirror is covered through the shared IndexRange class only.",
         technique=_T),
+    "C15": dict(
+        text="Thin: the rejection rules are proved on exhaustive precision/memory/window-ness domains: "
+             "PrecisionAnalysis records an error whenever two different concrete precisions meet in one expression or "
+             "across a call and leaves no R-typed node; MemoryAnalysis accepts a call iff every argument's memory is a "
+             "subclass of the callee's; WindowAnalysis promotes dense tensors to full windows and rejects windows "
+             "where a dense tensor is required; comp_e/comp_s emit a direct access only through can_read / "
+             "mem.write / mem.reduce.",
+        design_ref="3/C15",
+        note="NOT covered: that the emitted text is grammatical, well-typed C as a language-level judgement (no C "
+             "front end is in reach of contracts); expression shapes are bounded (depth <= 3).",
+        technique=_T),
     "C17": dict(
         text="PrintEnv.get_name/push are proved to maintain, from an arbitrary state satisfying it, the invariant "
              "that the scope chain maps live symbols injectively to strings and that every string handed out is "
@@ -131,5 +156,5 @@ _PLANNED = "planned in DESIGN.md but the contracts are not built yet; not claime
 NOT_APPLICABLE = {
     "C14": "needs a formal semantics of vendor intrinsics (AVX2/AVX-512 C fragments); no contract over code in /repo can state it - any contract would be the assumption the property asks to check",
 }
-for _k in ("C01 C03 C04 C06 C15 C16 C19").split():
+for _k in ("C01 C04 C06 C16 C19").split():
     NOT_APPLICABLE.setdefault(_k, _PLANNED)
